@@ -526,6 +526,59 @@ Proof.
     + specialize (IH Iz). destruct (snd u <=? b_last a) eqn:G1, (p <=? b_last a) eqn:G3; simpl; lia.
 Qed.
 
+(* every visible record sits in a batch that ends at or after it *)
+Lemma visible_in_batch : forall (A : list batch) lo r, wf_from lo A = true -> In r (visible A) ->
+  exists b, In b A /\ r <= b_last b.
+Proof.
+  induction A as [|a A IH]; intros lo r H I; [contradiction|].
+  simpl in H. rewrite !andb_true_iff in H. destruct H as (((H1 & H2) & H3) & H4).
+  change (visible (a :: A)) with (b_vis a ++ visible A) in I. apply in_app_or in I. destruct I as [I|I].
+  - destruct (incr_in_sorted _ _ _ H3) as (_ & S2). exists a. split; [left; reflexivity|apply S2; exact I].
+  - destruct (IH _ _ H4 I) as (b & Ib & Hb). exists b. split; [right; exact Ib|exact Hb].
+Qed.
+
+Lemma past_all_batches p : from_off p L = [] -> forall r, In r (visible L) -> r < p.
+Proof.
+  intros E r I. destruct (visible_in_batch L 0 r WF I) as (b & Ib & Hb).
+  destruct (Z_lt_le_dec r p) as [Hlt|Hge]; [exact Hlt|exfalso].
+  assert (In b (from_off p L)) as J by (apply filter_In; split; [exact Ib|lia]).
+  rewrite E in J. exact J.
+Qed.
+
+(* fault-free rounds reach the end of the log, delivering everything visible on the way *)
+Theorem rounds_reach_end none k : (1 <= k)%nat -> forall m s p,
+  length (from_off p L) = m -> pos s = Some p -> buf s = NoBuf -> paused s = false ->
+  exists n s' p', (n <= m)%nat /\ rounds none L k n s = Some s' /\ pos s' = Some p' /\ p <= p' /\
+    from_off p' L = [] /\ buf s' = NoBuf /\ start s' = start s /\
+    seg s' = seg s ++ filter (fun r => p <=? r) (visible L).
+Proof.
+  intros Hk m. induction m as [m IH] using lt_wf_ind. intros s p Hm Hp Hb Hpa.
+  destruct (from_off p L) as [|b F] eqn:EF.
+  - exists O, s, p. simpl in Hm. split; [lia|]. split; [reflexivity|]. split; [exact Hp|]. split; [lia|].
+    split; [exact EF|]. split; [exact Hb|]. split; [reflexivity|].
+    assert (filter (fun r => p <=? r) (visible L) = []) as F0.
+    { pose proof (past_all_batches p EF) as PA. revert PA. generalize (visible L) as l.
+      induction l as [|y l IHl]; intros PA; [reflexivity|].
+      simpl. replace (p <=? y) with false by (specialize (PA y (or_introl eq_refl)); lia).
+      apply IHl. intros r I. apply PA. right. exact I. }
+    rewrite F0, app_nil_r. reflexivity.
+  - assert (exists b0, In b0 L /\ p <= b_last b0) as EX.
+    { exists b. assert (In b (from_off p L)) as J by (rewrite EF; left; reflexivity).
+      apply filter_In in J. split; [tauto|lia]. }
+    destruct (round_progress none k s p Hp Hb Hpa Hk EX)
+      as (s1 & p1 & R & Hp1 & Hlt & Hb1 & Hpa1 & Hs1 & Hst1 & _ & Hme).
+    rewrite <- Hm in IH. rewrite EF in Hme.
+    destruct (IH (length (from_off p1 L)) Hme s1 p1 eq_refl Hp1 Hb1 Hpa1)
+      as (n & s' & p' & Hn & Rn & Hp' & Hle & Hend & Hb' & Hst' & Hs').
+    exists (S n), s', p'. split; [rewrite <- Hm; simpl in *; lia|]. simpl. rewrite R.
+    split; [exact Rn|]. split; [exact Hp'|]. split; [lia|]. split; [exact Hend|]. split; [exact Hb'|].
+    split; [congruence|]. rewrite Hs', Hs1, <- app_assoc. f_equal.
+    assert (forall q, q <= p' -> filter (fun r => q <=? r) (visible L) = vis_between L q p') as FV.
+    { intros q Hq. unfold vis_between, between. apply filter_ext_in. intros r I.
+      pose proof (past_all_batches p' Hend r I). lia. }
+    rewrite (FV p ltac:(lia)), (FV p1 Hle). symmetry. apply vb_split. lia.
+Qed.
+
 End WithLog.
 
 (* ---- clauses that need no log hypothesis --------------------------------------------------- *)
@@ -644,7 +697,8 @@ Proof.
     + inversion H; subst. split; [contradiction|discriminate].
     + match type of H with (if ?c then _ else _) = _ => destruct c end.
       * inversion H; subst. split; [|discriminate]. intros q m r0 [I|[]]. inversion I; subst. exact EF.
-      * match type of H with (let x := ?sm in _) = _ => destruct sm as [v e'] eqn:ES end.
+      * match type of H with context [scan_many ?a ?b ?c ?d ?e] =>
+          destruct (scan_many a b c d e) as [v e'] eqn:ES end.
         simpl in H. inversion H; subst. destruct (IH _ _ _ _ _ ES) as (A1 & A2). split.
         -- intros q m r0 [I|I]; [inversion I; subst; exact EF|eauto].
         -- exact A2.
